@@ -24,14 +24,14 @@ var tokenHandlers = []tokenHandler{
 }
 
 const (
-	fnB64Decode   = "(*encoding/base64.Encoding).DecodeString"
-	fnB64Encode   = "(*encoding/base64.Encoding).EncodeToString"
-	fnParseToken  = "(ab.OneTimeTokenGenerator).ParseToken"
-	fnTokenSize   = "(ab.OneTimeTokenGenerator).TokenSize"
-	fnGenToken    = "(ab.OneTimeTokenGenerator).GenerateToken"
-	fnSum512      = "crypto/sha512.Sum512"
-	gURLEncoding  = "encoding/base64.URLEncoding"
-	gStdEncoding  = "encoding/base64.StdEncoding"
+	fnB64Decode  = "(*encoding/base64.Encoding).DecodeString"
+	fnB64Encode  = "(*encoding/base64.Encoding).EncodeToString"
+	fnParseToken = "(ab.OneTimeTokenGenerator).ParseToken"
+	fnTokenSize  = "(ab.OneTimeTokenGenerator).TokenSize"
+	fnGenToken   = "(ab.OneTimeTokenGenerator).GenerateToken"
+	fnSum512     = "crypto/sha512.Sum512"
+	gURLEncoding = "encoding/base64.URLEncoding"
+	gStdEncoding = "encoding/base64.StdEncoding"
 )
 
 // encodingOf returns the global encoding object a base64 call is made on.
